@@ -1899,7 +1899,9 @@ where
             if !two {
                 continue;
             }
-            for (f2, b2) in pairs.iter().filter(|(f2, _)| f2.n == k) {
+            // second append: every pair again, except 2x2 after 2x2 (6561^2 executions; those
+            // histories are covered with the paired alphabet by the BFS)
+            for (f2, b2) in pairs.iter().filter(|(f2, _)| f2.n == k && !(d == 2 && k == 2 && f2.m == 2)) {
                 n_exec.fetch_add(1, Ordering::Relaxed);
                 let (ef, eb) = (f2.mul(f), b.mul(b2));
                 let r = catch(|| {
@@ -1993,7 +1995,7 @@ fn main() {
             "operands with explicitly stored zeros are built with SpVec::from_sorted_entries + SpMat::from_col_vecs (checked: the storage pattern is the requested one)",
             "permutation convention as documented by the library: permute(p,q) sends entry (i,j) to (p(i),q(j)); from_row_perm(p)*a = a.permute_rows(p); a*from_col_perm(q) = a.permute_cols(q)",
             "COO duplicates (from_entries listing a position twice) are not in the domain; sub(indices) is called with distinct indices",
-            "Trans BFS merges real transforms with equal (dims, F, B, factor-count class); pairs (f,b) of the history alphabet are (f, phi(f)^T), the full product of pairs is covered for histories of length 1 (2 in thorough, i64)",
+            "Trans BFS merges real transforms with equal (dims, F, B, factor-count class); pairs (f,b) of the history alphabet are (f, phi(f)^T), the full product of pairs is covered for histories of length 1 (thorough, i64: also length 2 except a 2x2 pair after a 2x2 pair)",
             "not compared: PartialEq between differently stored equal matrices, nnz/density/redundancy/mean_weight (storage statistics), Display/serde",
         ],
     );
